@@ -1,6 +1,6 @@
 (* Props/C14.v — property theorems only.
    JSON and pretty-printed output encode the graph faithfully and completely. *)
-From TSG Require Import Model.C14Obs Proofs.BaseFacts Proofs.OrderFacts Proofs.Containers Proofs.JsonFacts Proofs.PrettyFacts.
+From TSG Require Import Model.C14TextObs Proofs.BaseFacts Proofs.OrderFacts Proofs.Containers Proofs.JsonFacts Proofs.PrettyFacts Proofs.JsonText.
 From Coq Require Import Sorted Permutation.
 
 (* ---------------- JSON ---------------- *)
@@ -80,6 +80,61 @@ Theorem set_emitted_in_order : forall s, StronglySorted value_lt s ->
              opt_all (map decode_value js) = Some s /\ NoDup js.
 Proof. exact set_emitted_in_order_lemma. Qed.
 
+(* ---------------- JSON, text level (Model/JsonText.v: what to_string_pretty / display_json writes) ---------------- *)
+(* A text is a list of Unicode scalar values.  `print_pretty` = serde_json's PrettyFormatter (two-space indent,
+   colon-space, comma-newline, empty array/object without line break, string escaping, u32 decimals);
+   `parse_json` = an RFC 8259 parser for unsigned-integer JSON with arbitrary insignificant whitespace. *)
+
+(* The printed text is valid JSON that decodes to exactly the value tree: for EVERY tree (no well-formedness
+   needed: any code points in strings, duplicate keys, any nesting), with any fuel from the size of the tree on,
+   nothing but the end of the text left over. *)
+Theorem json_text_roundtrip : forall j, exists fuel, parse_json fuel (print_pretty j) = Some (j, []).
+Proof. exact json_text_roundtrip_lemma. Qed.
+Theorem json_text_roundtrip_fuel : forall j fuel, (jsize j <= fuel)%nat -> parse_json fuel (print_pretty j) = Some (j, []).
+Proof. exact parse_json_print. Qed.
+(* the length of the text is always enough fuel: the fuel-free reader used by the correspondence verdict *)
+Theorem json_text_roundtrip_len : forall j, parse_json_text (print_pretty j) = Some j.
+Proof. exact parse_json_text_print. Qed.
+(* ... also when the text is surrounded by insignificant whitespace (e.g. a trailing newline) *)
+Theorem json_text_whitespace : forall j fuel pre post, (jsize j <= fuel)%nat -> skip_ws pre = [] -> skip_ws post = [] ->
+  parse_json fuel (pre ++ print_pretty j ++ post) = Some (j, []).
+Proof. exact parse_json_print_ws. Qed.
+
+(* different value trees have different texts *)
+Theorem json_text_injective : forall j1 j2, print_pretty j1 = print_pretty j2 -> j1 = j2.
+Proof. exact print_pretty_inj. Qed.
+
+(* String escaping: reading the characters of a literal after its opening quote gives back the string and stops
+   right after the closing quote, for ALL strings: quotes, backslashes, every control character, DEL, U+2028/9,
+   astral code points (and even surrogate code points, which a Rust string cannot hold). *)
+Theorem escape_roundtrip : forall s rest, parse_chars (escape_str s ++ 34 :: rest) = Some (s, rest).
+Proof. exact parse_chars_escape_str. Qed.
+Theorem escape_roundtrip_value : forall s, parse_json_text (print_string s) = Some (JStr s).
+Proof. intros s. exact (parse_json_text_print (JStr s)). Qed.
+
+(* Validity: the output contains no character below U+0020 except the line feeds of the layout, and a string
+   literal (quotes included) contains none at all. *)
+Theorem print_pretty_no_raw_control : forall j,
+  Forall (fun c => 32 <= c \/ c = 10) (print_pretty j) /\
+  (forall s, Forall (fun c => 32 <= c) (print_string s)).
+Proof. intros j. split; [exact (print_at_layout j 0%nat) | exact print_string_ge32]. Qed.
+
+(* a tree whose strings hold scalar values (what a Rust String can hold) prints scalar values only: the text is
+   encodable as UTF-8 *)
+Theorem print_pretty_scalars : forall j, json_wfb j = true -> Forall (fun c => is_scalarb c = true) (print_pretty j).
+Proof. intros j. exact (print_at_scalar j 0%nat). Qed.
+
+(* Composition with json_roundtrip: graph -> value tree -> text -> value tree -> graph is the identity *)
+Theorem graph_json_text_roundtrip : forall g, graph_of_json_text (graph_json_text g) = Some g.
+Proof. exact graph_json_text_roundtrip_lemma. Qed.
+Theorem graph_json_text_injective : forall g1 g2, graph_json_text g1 = graph_json_text g2 -> g1 = g2.
+Proof. exact graph_json_text_inj. Qed.
+(* ... and the text of ANY member order (the implementation writes hash-map iteration order) reads back as the
+   same graph up to attribute-list order, the same maps for well-formed graphs *)
+Theorem graph_json_text_member_order : forall g j', jperm (encode_graph g) j' ->
+  exists g', graph_of_json_text (print_pretty j') = Some g' /\ graph_eqv g g' /\ (graph_wf g -> graph_same_maps g g').
+Proof. exact graph_json_text_member_order. Qed.
+
 (* ---------------- pretty_print ---------------- *)
 
 (* The line list: nothing for the empty graph; appending a node appends its block; a block is the
@@ -157,3 +212,34 @@ Example ex_verdict_detects :
   c14_verdict ex_E ex_g (encode_graph [ {| g_attrs := g_attrs (hd new_gnode ex_g); g_edges := [(0, [([107], VGraph 1)])] |}; new_gnode ])
               true (pretty_text ex_E [ {| g_attrs := g_attrs (hd new_gnode ex_g); g_edges := [(0, [([107], VGraph 1)])] |}; new_gnode ]) false = 27.
 Proof. vm_compute. reflexivity. Qed.
+
+(* ---- text level ---- *)
+(* node 0: s = a string with quote, backslash, newline, U+0001, DEL, U+2028, an emoji, backspace, form feed, U+001F;
+   a key with a quote and a tab; l = [] ; edge 0->1 with e = {} (empty set);  node 1 empty *)
+Definition ex_tg : graph :=
+  [ {| g_attrs := [([115], VStr [34;92;10;1;127;8232;128512;8;12;31]); ([113;34;9], VInt 4294967295); ([108], VList [])];
+       g_edges := [(1, [([101], VSet [])])] |};
+    new_gnode ].
+Example ex_text_string :
+  print_string [34;92;10;1;127;8232;128512;8;12;31] =
+  [34; 92;34; 92;92; 92;110; 92;117;48;48;48;49; 127; 8232; 128512; 92;98; 92;102; 92;117;48;48;49;102; 34].
+Proof. vm_compute. reflexivity. Qed.
+(* the whole text of the second node and of the empty graph: [ newline, two spaces, { ... } newline ] and [] *)
+Example ex_text_small :
+  graph_json_text [] = [91;93] /\
+  graph_json_text [new_gnode] =
+    [91;10; 32;32;123;10; 32;32;32;32;34;105;100;34;58;32;48;44;10; 32;32;32;32;34;101;100;103;101;115;34;58;32;91;93;44;10;
+     32;32;32;32;34;97;116;116;114;115;34;58;32;123;125;10; 32;32;125;10; 93].
+Proof. vm_compute. split; reflexivity. Qed.
+Example ex_text_roundtrip :
+  graph_of_json_text (graph_json_text ex_tg) = Some ex_tg /\
+  json_wfb (encode_graph ex_tg) = true /\
+  length (graph_json_text ex_tg) = 502%nat /\
+  (* a trailing newline and leading blanks are accepted, a raw control character inside a literal is not *)
+  parse_json 100 ([32;10] ++ graph_json_text ex_tg ++ [10]) = Some (encode_graph ex_tg, []) /\
+  parse_json 100 [34;1;34] = None /\ parse_json 100 [34;92;117;48;48;48;49;34] = Some (JStr [1], []) /\
+  (* the verdict accepts the model's own text and sees a changed escape (every f replaced by F: upper-case hex digit, unknown escape) or layout (a trailing newline) *)
+  c14_jtext_ok (encode_graph ex_tg) [] (graph_json_text ex_tg) = true /\
+  c14_jtext_ok (encode_graph ex_tg) [] (map (fun c => if c =? 102 then 70 else c) (graph_json_text ex_tg)) = false /\
+  c14_jtext_ok (encode_graph ex_tg) [] (graph_json_text ex_tg ++ [10]) = false.
+Proof. vm_compute. repeat split; reflexivity. Qed.
